@@ -76,6 +76,21 @@ func (t *Collection) reclaimMarkUpdate(nloc *nodeLoc,
 	return n
 }
 
+// Marks the cached, still unmarked nodes below nloc as reclaimable.  Unlike
+// reclaimMarkUpdate the caller already holds rootLock.
+func (t *Collection) reclaimMarkAllUnlocked(nloc *nodeLoc, reclaimMark *node) {
+	if nloc.isEmpty() {
+		return
+	}
+	n := nloc.Node()
+	if n == nil || n.next != nil {
+		return
+	}
+	n.next = reclaimMark
+	t.reclaimMarkAllUnlocked(&n.left, reclaimMark)
+	t.reclaimMarkAllUnlocked(&n.right, reclaimMark)
+}
+
 func (t *Collection) reclaimNodesUnlocked(n *node,
 	reclaimLater *[3]*node, reclaimMark *node) int64 {
 	if n == nil {
@@ -221,6 +236,7 @@ func (t *Collection) mkRootNodeLoc(root *nodeLoc) *rootNodeLoc {
 	rnl.refs = 1
 	rnl.root = root
 	rnl.next = nil
+	rnl.superseded = false
 	rnl.chainedCollection = nil
 	rnl.chainedRootNodeLoc = nil
 	for i := 0; i < len(rnl.reclaimLater); i++ {
